@@ -82,7 +82,7 @@ impl Monitor for C10 {
         "C10"
     }
     fn rule(&self) -> String {
-        "cases = seeded universes (with and without hints, soft lists) solved under the manual single-thread executor: every provider future parks and exactly one is released per step, chosen by policy (seeded random x4, oldest, newest, candidates-first, dependencies-first); a third of the cases is additionally run with helper THREADS completing the provider futures after random delays, so that wakers fire from other threads while the solver thread polls or is parked; pauses at get_candidates / get_dependencies and, per case, also filter_candidates / sort_candidates. Oracle per run: no deadlock (solver pending with nothing parked), no panic, verdict == synchronous verdict, solution valid (reference + hook invariants), no repeated get_candidates(name) / get_dependencies(solvable). For tiny universes the complete schedule tree is enumerated (exhaustive subset, counted separately). distinct = content hash; non-trivial = distinct case with >= 2 futures parked simultaneously at some quiescent point".into()
+        "cases = seeded universes (with and without hints, soft lists) solved under the manual single-thread executor: every provider future parks and exactly one is released per step, chosen by policy (seeded random x4, oldest, newest, candidates-first, dependencies-first); a third of the cases is additionally run with helper THREADS completing the provider futures after random delays, so that wakers fire from other threads while the solver thread polls or is parked; pauses at get_candidates / get_dependencies and, per case, also filter_candidates / sort_candidates. Oracle per run: no deadlock (solver pending with nothing parked), no panic, verdict == synchronous verdict, solution valid (reference + hook invariants), no repeated get_candidates(name) / get_dependencies(solvable). A third of the cases is also run with a provider whose sort_candidates queries the SolverCache re-entrantly (dependencies of the solvables being sorted, other version sets) while every callback suspends, so that provider-initiated requests race with the encoder's own. For tiny universes the complete schedule tree is enumerated (exhaustive subset, counted separately). distinct = content hash; non-trivial = distinct case with >= 2 futures parked simultaneously at some quiescent point".into()
     }
     fn cases(&self, tier: Tier) -> u64 {
         tier.pick(42_000, 840_000)
@@ -205,6 +205,22 @@ impl Monitor for C10 {
         } else {
             for pol in &c.policies {
                 run(pol.clone(), ctx);
+            }
+            // a provider that queries the solver's cache from inside sort_candidates (as real
+            // providers do to break ties): its requests race with the encoder's own, every callback
+            // suspends. Same oracle (in particular: nothing is asked twice).
+            if h % 3 == 0 {
+                for pol in c.policies.iter().filter(|p| matches!(p, Policy::Random(_))).take(2) {
+                    ctx.rep.evaluations += 1;
+                    let opts = SolveOpts { mode: Mode::Async(pol.clone()), pause_mask: PAUSE_ALL, activity: c.activity, ..SolveOpts::default() };
+                    let mut sess = Session::new(u.clone(), &opts);
+                    sess.prov().reentrant_sort.set(true);
+                    let out = sess.solve(&c.p);
+                    note_outcome(ctx.rep, &out);
+                    ctx.rep.count("runs-with-re-entrant-cache-queries-from-sort_candidates");
+                    ctx.rep.add("re-entrant-queries", sess.prov().reentrant_queries.get());
+                    judge_async(&u, &rf, &c.p, sync_verdict, &sess, &out, ctx, &format!("policy {:?}, sort_candidates queries the cache re-entrantly", pol));
+                }
             }
         }
         if c.exhaustive {
